@@ -49,6 +49,10 @@ add("C11", "exhaustive (seed, rule, site) enumeration: each diagnosed rule broke
     "For each seed (micro-programs, F1/F2 representatives) every rule of the property is broken at every site where it applies: identifier/type/function/member uses replaced by undeclared names, one argument dropped/added/retyped at every user call, @must_use call and const_assert false inserted at every statement and declaration position, @group/@binding removed at every resource, array sizes 0 and -1, mixed/too-wide swizzles, every mandatory ';' and every delimiter deleted, @workgroup_size removed, /0 and %0 at every const-expression literal. Oracle: error and no output; position inside the source; for semantic rules inside the enclosing module-scope declaration; exact first offending token where the grammar determines it.",
     "Sites are located by an independent tokenizer; exact positions are demanded only where determined by construction (DESIGN.md §3 C11).", "DESIGN.md §3 C11")
 
+add("C07", "bounded-exhaustive enumeration of host-shareable type trees x address spaces x copy variants; static layout comparison (IR, SPIR-V decorations) and dynamic probe execution on all four backends against the reference WGSL layout",
+    "Every type tree of the F3 grammar (leaves, arrays n=1..3 and runtime-sized, structs of 1-3 members each plain and with one @align/@size attribute, nested structs/arrays incl. inner structs with attributes) is placed in storage and (where valid) uniform buffers. Static: IR offsets/spans/strides and SPIR-V Offset/ArrayStride/MatrixStride decorations equal the reference layout. Dynamic: a probe reads every leaf and copies the whole value five ways; the emitted SPIR-V/HLSL/MSL/GLSL is executed by independent interpreters that address memory through the emitted code's own declarations, over a source buffer with a distinct sentinel per word, and compared with the reference evaluator.",
+    "Reference layout: internal/wgen/layout.go (WGSL spec). f16 and atomic members are outside the enumerated alphabet. Text-backend layouts are observed dynamically (touched bytes) through the interpreters' own std140/std430, C++ and cbuffer calculators.", "DESIGN.md §3 C07")
+
 NA = {
 }
 for i in range(1, 20):
